@@ -66,6 +66,29 @@ func histTwoChain(seed uint64, steps int, mode replicaMode) ([]string, int) {
 	}
 	multi := 0
 	for s := 0; s < steps; s++ {
+		if s == steps/3 {
+			// a sweep of hook gas limits: somewhere between "the hook's signature check already runs out" and "the hook
+			// completes" its message handler runs out of gas in mid-flight (a panic the module contains); hooks delivered
+			// afterwards, under the default limit, behave as if that had never happened
+			tc, l2 := w.tc, w.tc.L2.L2
+			u := tc.L2.Users[0]
+			relayAll := func() {
+				for len(tc.PendingDeposits) > 0 {
+					if r, _ := tc.RelayNext(); r.Class != sim.OK {
+						break
+					}
+				}
+			}
+			tc.L1Deposit(tc.L1.Users[0], u.String(), "uinit", math.NewInt(10_000), nil)
+			relayAll()
+			for _, g := range []uint64{2_000, 5_000, 10_000, 20_000, 40_000, 80_000, opchildtypes.DefaultHookMaxGas} {
+				p, _ := l2.K.GetParams(l2.Ctx)
+				p.HookMaxGas = g
+				l2.Deliver(opchildtypes.NewMsgUpdateParams(l2.Authority, &p))
+				tc.L1Deposit(tc.L1.Users[1], u.String(), "uinit", math.NewInt(100), w.hookData(u, true, tc.L2.L2Denom("uinit")))
+				relayAll()
+			}
+		}
 		switch x := rr.Intn(100); {
 		case x < 22:
 			w.opL1Deposit()
@@ -220,6 +243,11 @@ func histValidators(seed uint64, steps int, mode replicaMode) ([]string, int) {
 		default:
 			if !w.endBlock() {
 				return t.Lines, sensitive
+			}
+			if rng.Chance(20) {
+				// the genesis document a node would write if it were stopped here (several validators are bonded at most of
+				// these points; at the end of the history a plan has usually left one)
+				t.Add("EXPORT at height %d %s", l2.Ctx.BlockHeight(), l2ExportJSON(l2))
 			}
 		}
 	}
